@@ -1,6 +1,8 @@
 // Queue-based streaming compressor API
 // Provides simple push() interface with automatic backpressure and constant memory usage
 
+#[cfg(ragc_verif)]
+use ragc_common::verif::{self, ev, pt};
 use crate::kmer_extract::{enumerate_kmers, remove_non_singletons};
 use crate::lz_diff::LZDiff;
 use crate::memory_bounded_queue::MemoryBoundedQueue;
@@ -1622,7 +1624,22 @@ impl StreamingQueueCompressor {
                     );
                 }
 
+                #[cfg(ragc_verif)]
+                {
+                    verif::event(ev::X_SITE, [2, 0, 0, 0]);
+                    verif::event(
+                        ev::P_TOKENS,
+                        [
+                            self.config.num_threads as u64,
+                            1,
+                            current_priority as u32 as u64,
+                            0,
+                        ],
+                    );
+                }
                 for _ in 0..self.config.num_threads {
+                    #[cfg(ragc_verif)]
+                    verif::perturb(pt::BETWEEN_TOKENS);
                     let sync_token = ContigTask {
                         sample_name: sample_name.clone(),
                         contig_name: String::from("<SYNC>"),
@@ -1673,6 +1690,11 @@ impl StreamingQueueCompressor {
                         // to ensure they're pulled and processed BEFORE any contigs.
                         // Use large priority boost (+1_000_000) to overcome cost-based tie-breaking
                         // which was causing contigs to be popped before sync tokens at same priority.
+                        #[cfg(ragc_verif)]
+                        verif::event(
+                            ev::P_TOKENS,
+                            [self.config.num_threads as u64, 4, 0, 0],
+                        );
                         for _ in 0..self.config.num_threads {
                             let sync_token = ContigTask {
                                 sample_name: sample_name.clone(),
@@ -1714,9 +1736,19 @@ impl StreamingQueueCompressor {
         // Queue is now a priority queue - highest priority processed first
         // eprintln!("[RAGC PUSH] sample={} contig={} priority={} cost={} sequence={}",
         //           &task.sample_name, &task.contig_name, task.sample_priority, task.cost, task.sequence);
+        #[cfg(ragc_verif)]
+        {
+            verif::event(
+                ev::P_PUSH_BEGIN,
+                [sequence, task_size as u64, sample_priority as u32 as u64, 0],
+            );
+            verif::perturb(pt::BEFORE_PUSH);
+        }
         self.queue
             .push(task, task_size)
             .context("Failed to push to queue")?;
+        #[cfg(ragc_verif)]
+        verif::event(ev::P_PUSH_END, [sequence, task_size as u64, 0, 0]);
 
         Ok(())
     }
@@ -1748,9 +1780,13 @@ impl StreamingQueueCompressor {
 
         // Wait for queue to empty
         // Poll every 100ms until queue is empty
+        #[cfg(ragc_verif)]
+        verif::event(ev::P_POLL_BEGIN, [1, 0, 0, 0]);
         while self.queue.len() > 0 {
             std::thread::sleep(std::time::Duration::from_millis(100));
         }
+        #[cfg(ragc_verif)]
+        verif::event(ev::P_POLL_END, [1, 0, 0, 0]);
 
         if self.config.verbosity > 0 {
             eprintln!("Queue drained - all queued contigs processed");
@@ -1768,7 +1804,14 @@ impl StreamingQueueCompressor {
             .next_sequence
             .fetch_add(1, std::sync::atomic::Ordering::SeqCst);
 
+        #[cfg(ragc_verif)]
+        verif::event(
+            ev::P_TOKENS,
+            [self.config.num_threads as u64, 2, 1_000_000, 0],
+        );
         for _ in 0..self.config.num_threads {
+            #[cfg(ragc_verif)]
+            verif::perturb(pt::BETWEEN_TOKENS);
             let sync_token = ContigTask {
                 sample_name: format!("<SYNC:{}>", sample_name),
                 contig_name: String::from("<SYNC>"),
@@ -1782,9 +1825,13 @@ impl StreamingQueueCompressor {
         }
 
         // Wait for sync tokens to be processed (queue empty)
+        #[cfg(ragc_verif)]
+        verif::event(ev::P_POLL_BEGIN, [2, 0, 0, 0]);
         while self.queue.len() > 0 {
             std::thread::sleep(std::time::Duration::from_millis(10));
         }
+        #[cfg(ragc_verif)]
+        verif::event(ev::P_POLL_END, [2, 0, 0, 0]);
 
         Ok(())
     }
@@ -1807,7 +1854,17 @@ impl StreamingQueueCompressor {
         // Use sequence 0 and high priority to ensure sync tokens are processed last
         let sequence = 0;
 
+        #[cfg(ragc_verif)]
+        {
+            verif::event(ev::P_FINALIZE, [1, 0, 0, 0]);
+            verif::event(
+                ev::P_TOKENS,
+                [self.config.num_threads as u64, 3, 1_000_000, 0],
+            );
+        }
         for _ in 0..self.config.num_threads {
+            #[cfg(ragc_verif)]
+            verif::perturb(pt::BETWEEN_TOKENS);
             let sync_token = ContigTask {
                 sample_name: String::from("<FINAL>"),
                 contig_name: String::from("<SYNC>"),
@@ -1826,6 +1883,8 @@ impl StreamingQueueCompressor {
 
         // Close queue - no more pushes allowed
         self.queue.close();
+        #[cfg(ragc_verif)]
+        verif::event(ev::P_FINALIZE, [2, 0, 0, 0]);
 
         if self.config.verbosity > 0 {
             eprintln!("  Waiting for {} workers to finish...", self.workers.len());
@@ -1834,11 +1893,15 @@ impl StreamingQueueCompressor {
         let wait_start = std::time::Instant::now();
         // Wait for all workers to finish
         for (i, handle) in self.workers.into_iter().enumerate() {
+            #[cfg(ragc_verif)]
+            verif::event(ev::P_JOIN, [i as u64, 0, 0, 0]);
             handle
                 .join()
                 .expect("Worker thread panicked")
                 .with_context(|| format!("Worker {} failed", i))?;
         }
+        #[cfg(ragc_verif)]
+        verif::event(ev::P_FINALIZE, [3, 0, 0, 0]);
 
         if self.config.verbosity > 0 {
             eprintln!(
@@ -2007,6 +2070,16 @@ impl StreamingQueueCompressor {
 
             let mut arch = self.archive.lock().unwrap();
             for pack in sorted_packs {
+                #[cfg(ragc_verif)]
+                verif::event(
+                    ev::K_FINAL_PACK,
+                    [
+                        pack.stream_id as u64,
+                        pack.raw_data.iter().filter(|&&b| b == CONTIG_SEPARATOR).count() as u64,
+                        0,
+                        (!pack.use_compressed) as u64,
+                    ],
+                );
                 if pack.use_compressed {
                     // Use buffered writes to reduce syscalls
                     arch.add_part_buffered(
@@ -2094,6 +2167,8 @@ impl StreamingQueueCompressor {
             // Close archive (writes footer)
             archive.close().context("Failed to close archive")?;
         }
+        #[cfg(ragc_verif)]
+        verif::event(ev::P_FINALIZE, [4, 0, 0, 0]);
 
         if self.config.verbosity > 0 {
             eprintln!("Compression complete!");
@@ -2677,6 +2752,16 @@ fn flush_pack_compress_only(
 
         let ref_size = ref_seg.data.len() as u64;
 
+        #[cfg(ragc_verif)]
+        verif::event(
+            ev::K_REF,
+            [
+                buffer.group_id as u64,
+                ref_size,
+                (compressed.len() >= ref_seg.data.len()) as u64,
+                marker as u64,
+            ],
+        );
         if compressed.len() < ref_seg.data.len() {
             archive_writes.push(PreCompressedPart {
                 stream_id: buffer.ref_stream_id,
@@ -2763,13 +2848,24 @@ fn flush_pack_compress_only(
                 .encode(&seg.data)
         };
 
+        #[cfg(ragc_verif)]
+        if use_lz_encoding && buffer.reference_segment.is_some() && seg.data.contains(&30) {
+            verif::event(ev::K_CODE30, [buffer.group_id as u64, 0, 0, 0]);
+        }
         if use_lz_encoding && contig_data.is_empty() {
+            #[cfg(ragc_verif)]
+            verif::event(ev::K_SAME_AS_REF, [buffer.group_id as u64, 0, 0, 0]);
             segment_in_group_ids.push((seg_idx, 0));
             continue;
         }
 
         if let Some(existing_idx) = buffer.pending_deltas.iter().position(|d| d == &contig_data) {
             let reused_id = buffer.pending_delta_ids[existing_idx];
+            #[cfg(ragc_verif)]
+            verif::event(
+                ev::K_DEDUP,
+                [buffer.group_id as u64, reused_id as u64, 0, 0],
+            );
             segment_in_group_ids.push((seg_idx, reused_id));
         } else {
             buffer.segments_written = buffer.segments_written.max(1);
@@ -2796,6 +2892,16 @@ fn flush_pack_compress_only(
                     buffer.stream_id,
                     config.compression_level,
                 )?;
+                #[cfg(ragc_verif)]
+                verif::event(
+                    ev::K_PACK,
+                    [
+                        buffer.group_id as u64,
+                        buffer.pending_deltas.len() as u64 + needs_placeholder as u64,
+                        use_lz_encoding as u64,
+                        (pack.metadata == 0) as u64,
+                    ],
+                );
                 archive_writes.push(pack);
                 buffer.raw_placeholder_written = true;
                 buffer.pending_deltas.clear();
@@ -3484,6 +3590,13 @@ fn find_cand_segment_using_fallback_minimizers(
 
     if !fallback_filter.is_enabled() {
         return (MISSING_KMER, MISSING_KMER, false);
+    }
+    #[cfg(ragc_verif)]
+    {
+        verif::event(ev::C_FALLBACK, [0, k as u64, 0, 0]);
+        if k >= 32 {
+            verif::event(ev::X_SITE, [3, 0, 0, 0]);
+        }
     }
 
     // Scan segment for k-mers and count candidates
@@ -4203,6 +4316,11 @@ fn classify_raw_segments_at_barrier(
                         reference_segments,
                         config,
                     );
+                    #[cfg(ragc_verif)]
+                    verif::event(
+                        ev::C_ONE_KMER,
+                        [1, (kf != MISSING_KMER && kb != MISSING_KMER) as u64, 0, 0],
+                    );
                     // Fallback: If Case 3a returned MISSING, try fallback minimizers
                     if (kf == MISSING_KMER || kb == MISSING_KMER) && fallback_filter.is_enabled() {
                         let (fb_kf, fb_kb, fb_sr) = find_cand_segment_using_fallback_minimizers(
@@ -4239,6 +4357,11 @@ fn classify_raw_segments_at_barrier(
                         config,
                     );
                     sr = !sr;
+                    #[cfg(ragc_verif)]
+                    verif::event(
+                        ev::C_ONE_KMER,
+                        [2, (kf != MISSING_KMER && kb != MISSING_KMER) as u64, 0, 0],
+                    );
                     // Fallback: If Case 3b returned MISSING, try fallback minimizers
                     // Note: C++ AGC uses segment_rc for fallback in Case 3b
                     if (kf == MISSING_KMER || kb == MISSING_KMER) && fallback_filter.is_enabled() {
@@ -4330,6 +4453,20 @@ fn classify_raw_segments_at_barrier(
                     } else {
                         group_id
                     };
+                #[cfg(ragc_verif)]
+                verif::event(
+                    ev::C_CLASSIFY,
+                    [
+                        if key.kmer_front == MISSING_KMER && key.kmer_back == MISSING_KMER {
+                            6
+                        } else {
+                            1
+                        },
+                        actual_group_id as u64,
+                        segment_data.len() as u64,
+                        segment_data.iter().any(|&b| b > 3) as u64,
+                    ],
+                );
                 buffered_seg_part.add_known(
                     actual_group_id,
                     BufferedSegment {
@@ -4485,6 +4622,40 @@ fn classify_raw_segments_at_barrier(
                                             (left_rc, right_rc)
                                         };
 
+                                    #[cfg(ragc_verif)]
+                                    {
+                                        verif::event(
+                                            ev::C_CLASSIFY,
+                                            [
+                                                3,
+                                                left_gid as u64,
+                                                segment_data.len() as u64,
+                                                segment_data.iter().any(|&b| b > 3) as u64,
+                                            ],
+                                        );
+                                        if left_should_reverse != should_reverse {
+                                            verif::event(
+                                                ev::C_REORIENT,
+                                                [
+                                                    left_data.len() as u64,
+                                                    left_data.iter().any(|&b| b > 3) as u64,
+                                                    0,
+                                                    0,
+                                                ],
+                                            );
+                                        }
+                                        if right_should_reverse != should_reverse {
+                                            verif::event(
+                                                ev::C_REORIENT,
+                                                [
+                                                    right_data.len() as u64,
+                                                    right_data.iter().any(|&b| b > 3) as u64,
+                                                    0,
+                                                    0,
+                                                ],
+                                            );
+                                        }
+                                    }
                                     let left_final = if left_should_reverse != should_reverse {
                                         reverse_complement_sequence(&left_data)
                                     } else {
@@ -4546,6 +4717,20 @@ fn classify_raw_segments_at_barrier(
                                     } else {
                                         raw_seg.front_kmer >= middle_kmer
                                     };
+                                    #[cfg(ragc_verif)]
+                                    {
+                                        let has = segment_data.iter().any(|&b| b > 3) as u64;
+                                        verif::event(
+                                            ev::C_CLASSIFY,
+                                            [4, left_gid as u64, segment_data.len() as u64, has],
+                                        );
+                                        if assign_rc != should_reverse {
+                                            verif::event(
+                                                ev::C_REORIENT,
+                                                [segment_data.len() as u64, has, 0, 0],
+                                            );
+                                        }
+                                    }
                                     let assign_data = if assign_rc != should_reverse {
                                         reverse_complement_sequence(&segment_data)
                                     } else {
@@ -4578,6 +4763,20 @@ fn classify_raw_segments_at_barrier(
                                     } else {
                                         middle_kmer >= raw_seg.back_kmer
                                     };
+                                    #[cfg(ragc_verif)]
+                                    {
+                                        let has = segment_data.iter().any(|&b| b > 3) as u64;
+                                        verif::event(
+                                            ev::C_CLASSIFY,
+                                            [5, right_gid as u64, segment_data.len() as u64, has],
+                                        );
+                                        if assign_rc != should_reverse {
+                                            verif::event(
+                                                ev::C_REORIENT,
+                                                [segment_data.len() as u64, has, 0, 0],
+                                            );
+                                        }
+                                    }
                                     let assign_data = if assign_rc != should_reverse {
                                         reverse_complement_sequence(&segment_data)
                                     } else {
@@ -4633,6 +4832,16 @@ fn classify_raw_segments_at_barrier(
 
                     // Ensure buffered_seg_part has capacity for this group ID
                     buffered_seg_part.ensure_capacity(new_group_id);
+                    #[cfg(ragc_verif)]
+                    verif::event(
+                        ev::C_CLASSIFY,
+                        [
+                            2,
+                            new_group_id as u64,
+                            segment_data.len() as u64,
+                            segment_data.iter().any(|&b| b > 3) as u64,
+                        ],
+                    );
 
                     // Store reference data IMMEDIATELY for new groups
                     // C++ AGC: first segment becomes reference for LZ encoding
@@ -5084,11 +5293,29 @@ fn worker_thread(
                     worker_id, processed_count
                 );
             }
+            #[cfg(ragc_verif)]
+            verif::event(
+                ev::W_EXIT,
+                [worker_id as u64, contig_count as u64, sync_count as u64, 0],
+            );
             break;
         };
 
         let queue_wait = queue_start.elapsed();
         total_queue_wait += queue_wait;
+        #[cfg(ragc_verif)]
+        {
+            verif::event(
+                ev::W_PULL,
+                [
+                    worker_id as u64,
+                    task.is_sync_token as u64,
+                    task.sequence,
+                    task.cost as u64,
+                ],
+            );
+            verif::perturb(pt::AFTER_PULL);
+        }
 
         // Handle sync tokens with barrier synchronization (matches C++ AGC registration stage)
         if task.is_sync_token {
@@ -5107,7 +5334,20 @@ fn worker_thread(
 
             // Barrier 1: All workers arrive at sample boundary
             let barrier_start = std::time::Instant::now();
+            #[cfg(ragc_verif)]
+            {
+                verif::perturb(pt::BEFORE_BARRIER);
+                verif::event(
+                    ev::W_BARRIER_ARRIVE,
+                    [worker_id as u64, sync_count as u64, 1, 0],
+                );
+            }
             barrier.wait();
+            #[cfg(ragc_verif)]
+            verif::event(
+                ev::W_BARRIER_LEAVE,
+                [worker_id as u64, sync_count as u64, 1, 0],
+            );
             total_barrier_wait += barrier_start.elapsed();
 
             // Phase 2 (Thread 0 only): Classify raw segments and prepare batch
@@ -5170,7 +5410,20 @@ fn worker_thread(
 
             // Barrier 2: All workers see prepared buffers
             let barrier_start = std::time::Instant::now();
+            #[cfg(ragc_verif)]
+            {
+                verif::perturb(pt::BEFORE_BARRIER);
+                verif::event(
+                    ev::W_BARRIER_ARRIVE,
+                    [worker_id as u64, sync_count as u64, 2, 0],
+                );
+            }
             barrier.wait();
+            #[cfg(ragc_verif)]
+            verif::event(
+                ev::W_BARRIER_LEAVE,
+                [worker_id as u64, sync_count as u64, 2, 0],
+            );
             total_barrier_wait += barrier_start.elapsed();
 
             let compress_start = std::time::Instant::now();
@@ -5178,6 +5431,8 @@ fn worker_thread(
             // Workers compress segments and buffer archive writes (C++ AGC: AddPartBuffered)
             // Buffering is fast (memory only), flush happens after barrier
             loop {
+                #[cfg(ragc_verif)]
+                verif::perturb(pt::CLAIM_LOOP);
                 let Some(idx) = parallel_state.claim_next_idx() else {
                     break;
                 };
@@ -5214,7 +5469,20 @@ fn worker_thread(
 
             // Barrier 3: All workers done with compression and buffering
             let barrier_start = std::time::Instant::now();
+            #[cfg(ragc_verif)]
+            {
+                verif::perturb(pt::BEFORE_BARRIER);
+                verif::event(
+                    ev::W_BARRIER_ARRIVE,
+                    [worker_id as u64, sync_count as u64, 3, 0],
+                );
+            }
             barrier.wait();
+            #[cfg(ragc_verif)]
+            verif::event(
+                ev::W_BARRIER_LEAVE,
+                [worker_id as u64, sync_count as u64, 3, 0],
+            );
             total_barrier_wait += barrier_start.elapsed();
 
             if worker_id == 0 && config.verbosity > 0 {
@@ -5288,7 +5556,20 @@ fn worker_thread(
 
             // Barrier 4: All workers ready for next batch (reduced from 2 barriers)
             let barrier_start = std::time::Instant::now();
+            #[cfg(ragc_verif)]
+            {
+                verif::perturb(pt::BEFORE_BARRIER);
+                verif::event(
+                    ev::W_BARRIER_ARRIVE,
+                    [worker_id as u64, sync_count as u64, 4, 0],
+                );
+            }
             barrier.wait();
+            #[cfg(ragc_verif)]
+            verif::event(
+                ev::W_BARRIER_LEAVE,
+                [worker_id as u64, sync_count as u64, 4, 0],
+            );
             total_barrier_wait += barrier_start.elapsed();
 
             // Track total sync token processing time
@@ -5405,10 +5686,19 @@ fn worker_thread(
 
         // ONE lock acquisition for entire contig (reduces contention significantly)
         // Push to this worker's own buffer (NO CONTENTION - each worker has its own buffer)
+        #[cfg(ragc_verif)]
+        let verif_n_segments = contig_segments.len() as u64;
+        #[cfg(ragc_verif)]
+        verif::perturb(pt::BEFORE_RAW_PUSH);
         raw_segment_buffers[worker_id]
             .lock()
             .unwrap()
             .extend(contig_segments);
+        #[cfg(ragc_verif)]
+        verif::event(
+            ev::W_SEGMENTED,
+            [worker_id as u64, task.sequence, verif_n_segments, 0],
+        );
 
         // End timing for segment processing
         total_segment_processing += segment_start.elapsed();
